@@ -369,6 +369,9 @@ func (c *V2) Do(op Op) (out Outcome) {
 		return o
 	case OpBatchWrite:
 		in := &v2ddb.BatchWriteItemInput{RequestItems: map[string][]v2types.WriteRequest{}}
+		for _, t := range op.EmptyTables {
+			in.RequestItems[t] = []v2types.WriteRequest{}
+		}
 		for _, e := range op.Batch {
 			wr := v2types.WriteRequest{}
 			if e.Put != nil {
